@@ -13,6 +13,7 @@ from engine.srcmodel import walk_shallow, norm, parent, ancestors
 from engine.util import call_name, enumerate_paths, contains, fstring_template
 from engine.cfg import CFG
 from engine.dataflow import assigned_value, target_names
+from engine.inline import inlined
 
 PROPERTY = "C06"
 REL = "pyrates/frontend/template/circuit.py"
@@ -802,6 +803,88 @@ def _append_stmt(st, list_name):
         and len(st.value.args) == 1
 
 
+def _r2_pair_list(ctx, rid, f, frame, kw, P: str):
+    """Labels and series are collected as tuples in ONE list `P` and separated afterwards (`[a for a, b in P]`, `zip(*P)`): a label
+    cannot lose its series, what remains to be shown is that both components of every tuple are selected by the same loop bindings."""
+    rd = ctx.rd(f)
+
+    def projections(e, depth=3) -> Set[int]:
+        out = set()
+        for n in ast.walk(e):
+            if isinstance(n, (ast.ListComp, ast.GeneratorExp)) and len(n.generators) == 1 and isinstance(n.generators[0].iter, ast.Name) \
+                    and n.generators[0].iter.id == P:
+                g = n.generators[0]
+                if g.ifs or not isinstance(g.target, ast.Tuple) or not all(isinstance(x, ast.Name) for x in g.target.elts):
+                    raise AnalysisError(f"{rid}: `{norm(n)}` does not take the pairs of `{P}` apart by position (unrecognised form)")
+                if isinstance(n.elt, ast.Name) and position_in_target(g.target, n.elt.id) is not None:
+                    out.add((position_in_target(g.target, n.elt.id), len(g.target.elts)))
+                elif isinstance(n.elt, ast.Subscript) and isinstance(n.elt.slice, ast.Constant):
+                    raise AnalysisError(f"{rid}: `{norm(n)}` (unrecognised form)")
+            elif isinstance(n, ast.Name) and isinstance(n.ctx, ast.Load) and n.id != P and comp_generator_of(n) is None and depth > 0:
+                for d in rd.defs_reaching(n):
+                    if isinstance(d, ast.Assign) and len(d.targets) == 1 and isinstance(d.targets[0], (ast.Tuple, ast.List)) \
+                            and isinstance(d.value, ast.Call) and call_name(d.value) == "zip" and len(d.value.args) == 1 \
+                            and isinstance(d.value.args[0], ast.Starred) and isinstance(d.value.args[0].value, ast.Name) \
+                            and d.value.args[0].value.id == P:
+                        pos = position_in_target(d.targets[0], n.id)
+                        if pos is not None:
+                            out.add((pos, len(d.targets[0].elts)))
+                        continue
+                    v = assigned_value(d, n.id)
+                    if v is not None:
+                        out |= projections(v, depth - 1)
+        return out
+    lp, dp = projections(kw["columns"]), projections(kw["data"])
+    ctx.require(len(lp) == 1 and len(dp) == 1 and next(iter(lp))[0] != next(iter(dp))[0] and next(iter(lp))[1] == next(iter(dp))[1],
+                f"{rid}: cannot tell which component of the tuples in `{P}` becomes the label and which the data of {norm(frame)} "
+                f"(labels {sorted(lp)}, data {sorted(dp)})")
+    (li, arity), (di, _) = next(iter(lp)), next(iter(dp))
+    ctx.ok(rid, f, frame, f"the frame's columns are component {li} and its data component {di} of the tuples collected in list `{P}`",
+           label="frame assembly", nontrivial=False)
+    # every way the list grows
+    elements = []        # (statement, tuple expression)
+    for n in ordered(walk_shallow(f.node)):
+        if isinstance(n, ast.AugAssign) and isinstance(n.target, ast.Name) and n.target.id == P:
+            raise AnalysisError(f"{rid}: `{norm(n)}` grows the pair list in an unrecognised way")
+        if not (isinstance(n, ast.Call) and isinstance(n.func, ast.Attribute) and isinstance(n.func.value, ast.Name) and n.func.value.id == P
+                and n.func.attr in MUTATORS):
+            continue
+        st = n
+        while not isinstance(st, ast.stmt):
+            st = parent(st)
+        arg = n.args[0] if len(n.args) == 1 and not n.keywords else None
+        tup = None
+        if n.func.attr == "append":
+            tup = arg
+        elif n.func.attr == "extend" and isinstance(arg, (ast.GeneratorExp, ast.ListComp)) and not any(g.ifs for g in arg.generators):
+            tup = arg.elt
+        if not (isinstance(st, ast.Expr) and st.value is n and isinstance(tup, ast.Tuple) and len(tup.elts) == arity
+                and not any(isinstance(x, ast.Starred) for x in tup.elts)):
+            raise AnalysisError(f"{rid}: `{norm(n)}` does not add ({arity})-tuples to the pair list in a recognised way")
+        elements.append((st, tup))
+    ctx.require(elements, f"{rid}: nothing is ever added to `{P}`")
+    loops = [a for a in ancestors(elements[0][0]) if isinstance(a, (ast.For, ast.While))]
+    ctx.require(loops, f"{rid}: the pairs are not collected inside a loop")
+    loop = loops[-1]
+    for st, _ in elements:
+        if not contains(loop, st):
+            raise AnalysisError(f"{rid}: `{norm(st)}` lies outside the column-building loop `{norm(loop)}` (unrecognised form)")
+    dep = LoopDeps(ctx, f, loop)
+    for st, tup in elements:
+        label = "label " + norm(st) + " @" + " > ".join(norm(a) for a in reversed(
+            [a for a in ancestors(st) if isinstance(a, (ast.For, ast.While, ast.If)) and (a is loop or contains(loop, a))]))
+        le, de = tup.elts[li], tup.elts[di]
+        ld, dd = dep.deps(le), dep.deps(de)
+        facts = {"label": norm(le), "data": norm(de), "label_determined_by": LoopDeps.show(ld), "data_determined_by": LoopDeps.show(dd)}
+        if ld == dd:
+            ctx.ok(rid, f, st, "label and data series are stored as one pair and are determined by the same loop bindings", facts, label=label)
+        else:
+            only_l, only_d = LoopDeps.show(ld - dd), LoopDeps.show(dd - ld)
+            ctx.violation(rid, f, st, f"label `{facts['label']}` and data `{facts['data']}` are not selected by the same key/unit "
+                                      f"(label only: {only_l}; data only: {only_d}): the column would carry another variable's or unit's "
+                                      f"trajectory than its label names", facts, label=label)
+
+
 def r2_label_data_lockstep(ctx, rid):
     run = ctx.repo.get_func(REL, f"{CLS}.run")
 
@@ -821,7 +904,7 @@ def r2_label_data_lockstep(ctx, rid):
         kw["data"] = frame.args[0]
     ctx.require("columns" in kw and "data" in kw, f"{rid}: DataFrame call without data=/columns= keywords: {norm(frame)}")
     appended = {n.func.value.id for n in walk_shallow(f.node) if isinstance(n, ast.Call) and isinstance(n.func, ast.Attribute)
-                and n.func.attr == "append" and isinstance(n.func.value, ast.Name)}
+                and n.func.attr in ("append", "extend") and isinstance(n.func.value, ast.Name)}
 
     def roots(e, depth=3) -> Set[str]:
         out = set()
@@ -836,6 +919,9 @@ def r2_label_data_lockstep(ctx, rid):
                             out |= roots(v, depth - 1)
         return out
     lroots, droots = roots(kw["columns"]), roots(kw["data"])
+    if len(lroots) == 1 and lroots == droots:
+        # one list of (label, series) pairs that is taken apart for the frame
+        return _r2_pair_list(ctx, rid, f, frame, kw, next(iter(lroots)))
     ctx.require(len(lroots) == 1 and len(droots) == 1 and lroots != droots,
                 f"{rid}: cannot identify the label list / data list behind {norm(frame)} (labels {sorted(lroots)}, data {sorted(droots)})")
     L, D = next(iter(lroots)), next(iter(droots))
@@ -947,8 +1033,9 @@ def _node_query(ctx, f, T: ast.Name, rid: str):
     tv = resolve_local(ctx, f, T)
     if isinstance(tv, ast.Call) and call_name(tv) == "get_nodes":
         vid = var_identifier(f, tv)
-        return (tv, lambda e: same_value(ctx, f, e, vid.elts[0]), lambda e: same_value(ctx, f, e, vid.elts[1]),
-                f"{norm(vid.elts[0])}/{norm(vid.elts[1])}")
+        def same_as(want):
+            return lambda e: same_value(ctx, f, e, want) or same_value(ctx, f, resolve_local(ctx, f, e), resolve_local(ctx, f, want))
+        return tv, same_as(vid.elts[0]), same_as(vid.elts[1]), f"{norm(vid.elts[0])}/{norm(vid.elts[1])}"
     if not isinstance(tv, ast.Name) or comp_generator_of(tv) is not None:
         return None
     defs = ctx.rd(f).defs_reaching(tv)
@@ -988,7 +1075,9 @@ def _node_query(ctx, f, T: ast.Name, rid: str):
 
 
 def r3_same_path(ctx, rid):
-    f = ctx.repo.get_func(REL, f"{CLS}.get_variable_positions")
+    f0 = ctx.repo.get_func(REL, f"{CLS}.get_variable_positions")
+    # private helpers (node look-up, relabel + index look-up returning a pair, ...) are spliced in; the anchors stay calls
+    f = inlined(ctx, f0, keep=("_relabel_var", "_get_var_idx", "get_nodes"))
     rd = ctx.rd(f)
     rets = [n for n in walk_shallow(f.node) if isinstance(n, ast.Return)]
     ctx.require(len(rets) == 1 and isinstance(rets[0].value, ast.Tuple) and len(rets[0].value.elts) == 2
@@ -1006,7 +1095,7 @@ def r3_same_path(ctx, rid):
 
     # sub-maps: `<index map>[k] = <local>` where the local is a fresh dict (`m = {}` / `<index map>[k] = m = {}`); stores into the
     # local are stores into `<index map>[k]`
-    sub_maps: Dict[str, Tuple[ast.stmt, list]] = {}         # local name -> (its defining statement, key prefix)
+    sub_maps: Dict[str, Dict[int, list]] = {}         # local name -> {id(defining statement): key prefix}
     for st in ordered(walk_shallow(f.node)):
         for t, v in stores(st):
             root, keys = _unchain(t)
@@ -1015,11 +1104,16 @@ def r3_same_path(ctx, rid):
             names = [x for x in st.targets if isinstance(x, ast.Name)]
             if names and empty_dict(v):
                 for x in names:
-                    sub_maps[x.id] = (st, keys)
+                    sub_maps.setdefault(x.id, {})[id(st)] = keys
             elif isinstance(v, ast.Name) and comp_generator_of(v) is None:
                 defs = rd.defs_reaching(v)
                 if len(defs) == 1 and empty_dict(assigned_value(defs[0], v.id)):
-                    sub_maps[v.id] = (defs[0], keys)
+                    sub_maps.setdefault(v.id, {})[id(defs[0])] = keys
+    # a local may also stand for the index map itself on another branch (`m = <index map>`): prefix []
+    for st in ordered(walk_shallow(f.node)):
+        if isinstance(st, ast.Assign) and len(st.targets) == 1 and isinstance(st.targets[0], ast.Name) and isinstance(st.value, ast.Name) \
+                and st.value.id == idx_map and st.targets[0].id != idx_map:
+            sub_maps.setdefault(st.targets[0].id, {})[id(st)] = []
     entries, var_stores = [], []
     for st in ordered(walk_shallow(f.node)):
         for t, v in stores(st):
@@ -1028,15 +1122,18 @@ def r3_same_path(ctx, rid):
                 base = t
                 while isinstance(base, ast.Subscript):
                     base = base.value
-                if [id(d) for d in rd.defs_reaching(base)] != [id(sub_maps[root][0])]:
-                    raise AnalysisError(f"{rid}: `{norm(st)}` stores into `{root}`, which is not only the sub-map of `{idx_map}` here "
+                reaching = [id(d) for d in rd.defs_reaching(base)]
+                if not reaching or any(d not in sub_maps[root] for d in reaching):
+                    raise AnalysisError(f"{rid}: `{norm(st)}` stores into `{root}`, which is not only a (sub-)map of `{idx_map}` here "
                                         f"(unrecognised form)")
-                root, keys = idx_map, list(sub_maps[root][1]) + keys
+                prefixes = [sub_maps[root][d] for d in reaching]
+                root, keys = idx_map, list(max(prefixes, key=len)) + keys
             if root == idx_map:
                 if empty_dict(v) or (isinstance(v, ast.Name) and v.id in sub_maps):
                     continue
-                if isinstance(v, ast.Call) and call_name(v) == "_get_var_idx" and (v.args or v.keywords):
-                    entries.append((st, keys, v))
+                vr = resolve_local(ctx, f, v)
+                if isinstance(vr, ast.Call) and call_name(vr) == "_get_var_idx" and (vr.args or vr.keywords):
+                    entries.append((st, keys, vr))
                 else:
                     raise AnalysisError(f"{rid}: `{norm(st)}` writes the index map with something else than _get_var_idx(...) (unrecognised form)")
             elif root == var_map:
@@ -1051,7 +1148,7 @@ def r3_same_path(ctx, rid):
         seen[txt] = seen.get(txt, 0) + 1
         tag = txt + (f" #{seen[txt]}" if seen[txt] > 1 else "")
         if not partners:
-            ctx.violation(rid, f, st, f"an index is stored in `{idx_map}` but no backend variable is stored in `{var_map}` in the same branch: "
+            ctx.violation(rid, f0, st, f"an index is stored in `{idx_map}` but no backend variable is stored in `{var_map}` in the same branch: "
                                       f"the result column has no variable to be read from", label=f"entry {tag}: pairing")
             continue
         if len(partners) > 1:
@@ -1072,45 +1169,73 @@ def r3_same_path(ctx, rid):
             Mr = resolve_local(ctx, f, M)
             map_ok = isinstance(Mr, ast.Attribute) and Mr.attr == "_vectorization_labels"
         if (same_value(ctx, f, A, R) or same_value(ctx, f, Ar, Rr)) and map_ok:
-            ctx.ok(rid, f, st, "the index and the backend key of this entry are computed from the same path", facts, label=f"entry {tag}: one path")
+            ctx.ok(rid, f0, st, "the index and the backend key of this entry are computed from the same path", facts, label=f"entry {tag}: one path")
         elif not map_ok:
-            ctx.violation(rid, f, vs, f"the backend key is re-labelled with `{norm(M)}` instead of the vectorisation label map", facts,
+            ctx.violation(rid, f0, vs, f"the backend key is re-labelled with `{norm(M)}` instead of the vectorisation label map", facts,
                           label=f"entry {tag}: one path")
         else:
-            ctx.violation(rid, f, st, f"the index is computed for `{norm(A)}` but the backend variable for `{norm(R)}`: the column is read from "
+            ctx.violation(rid, f0, st, f"the index is computed for `{norm(A)}` but the backend variable for `{norm(R)}`: the column is read from "
                                       f"one variable at the position of another", facts, label=f"entry {tag}: one path")
         # (ii) same dictionary key
         if keys and vkeys and len(vkeys) == 1 and same_value(ctx, f, keys[-1], vkeys[-1]):
-            ctx.ok(rid, f, st, "index map and backend-variable map are keyed by the same value", facts, label=f"entry {tag}: one key")
+            ctx.ok(rid, f0, st, "index map and backend-variable map are keyed by the same value", facts, label=f"entry {tag}: one key")
         else:
-            ctx.violation(rid, f, vs, f"the index is stored under `{norm(keys[-1])}` but the backend variable under "
+            ctx.violation(rid, f0, vs, f"the index is stored under `{norm(keys[-1])}` but the backend variable under "
                                       f"`{norm(vkeys[-1]) if vkeys else '?'}`: run() pops the series by the index map's key and would read another "
                                       f"(or no) variable", facts, label=f"entry {tag}: one key")
         # (iii) the path is <resolved node>/<op>/<var> of the query that resolved the nodes
         if isinstance(Ar, ast.Call) and call_name(Ar) == "_relabel_var":
-            ctx.violation(rid, f, st, f"the path `{norm(A)}` handed to _get_var_idx is a re-labelled backend key, not the frontend path "
+            ctx.violation(rid, f0, st, f"the path `{norm(A)}` handed to _get_var_idx is a re-labelled backend key, not the frontend path "
                                       f"<node>/<op>/<var> of the resolved node", facts, label=f"entry {tag}: path of the resolved node")
             continue
+        # the path expression: an f-string `<node>/<op>/<var>` written in place, or an element of a list of such strings that was
+        # built by one comprehension over the node list (`keys = [f"{t}/{op}/{var}" for t in nodes]`; `for k in keys` / `keys[0]`)
+        js, elem_of, const_idx, key_list = Ar, None, None, None
         if not isinstance(Ar, ast.JoinedStr):
-            raise AnalysisError(f"{rid}: the path `{norm(A)}` handed to _get_var_idx is not an f-string `<node>/<op>/<var>` (unrecognised form)")
-        tpl = fstring_template(Ar)
-        holes = [v.value for v in Ar.values if isinstance(v, ast.FormattedValue)]
+            src = None
+            if isinstance(Ar, ast.Name):
+                bl = binding_loop(ctx, f, Ar)
+                if bl is not None and isinstance(bl[0], ast.Name) and isinstance(bl[1], ast.Name):
+                    src = bl[1]
+            elif isinstance(Ar, ast.Subscript) and isinstance(Ar.value, ast.Name) and isinstance(Ar.slice, ast.Constant) \
+                    and isinstance(Ar.slice.value, int):
+                src, const_idx = Ar.value, Ar.slice.value
+            comp = resolve_local(ctx, f, src) if src is not None else None
+            if isinstance(comp, ast.ListComp) and len(comp.generators) == 1 and not comp.generators[0].ifs \
+                    and isinstance(comp.generators[0].target, ast.Name) and isinstance(comp.generators[0].iter, ast.Name) \
+                    and isinstance(comp.elt, ast.JoinedStr):
+                js, elem_of, key_list = comp.elt, comp.generators[0], src
+            else:
+                raise AnalysisError(f"{rid}: the path `{norm(A)}` handed to _get_var_idx is not an f-string `<node>/<op>/<var>` "
+                                    f"(unrecognised form)")
+        tpl = fstring_template(js)
+        holes = [v.value for v in js.values if isinstance(v, ast.FormattedValue)]
         import re
         if not re.fullmatch(r"⟨[^⟩]*⟩/⟨[^⟩]*⟩/⟨[^⟩]*⟩", tpl or "") or len(holes) != 3:
             raise AnalysisError(f"{rid}: the path template `{tpl}` is not `<node>/<op>/<var>` (unrecognised form)")
         nh, oh, vh = holes
         why = None
         T = None
-        if isinstance(nh, ast.Name):
+
+        def always_same_element(lists, idx):
+            for a in ancestors(st):
+                if isinstance(a, (ast.For, ast.AsyncFor)) and isinstance(a.iter, ast.Name) and any(same_value(ctx, f, a.iter, L) for L in lists):
+                    return (f"the entry is written once per element of `{a.iter.id}` but always indexes element {idx}: every "
+                            f"node's column carries the first node's trajectory")
+            return None
+        if elem_of is not None:
+            # element of the comprehension: its node part must be the comprehension variable
+            if isinstance(nh, ast.Name) and comp_generator_of(nh) is elem_of:
+                T = elem_of.iter
+                if const_idx is not None:
+                    why = always_same_element([T, key_list], const_idx)
+        elif isinstance(nh, ast.Name):
             b = binding_loop(ctx, f, nh)
             if b is not None and isinstance(b[0], ast.Name) and isinstance(b[1], ast.Name):
                 T = b[1]
         elif isinstance(nh, ast.Subscript) and isinstance(nh.value, ast.Name) and isinstance(nh.slice, ast.Constant):
             T = nh.value
-            for a in ancestors(st):
-                if isinstance(a, (ast.For, ast.AsyncFor)) and isinstance(a.iter, ast.Name) and same_value(ctx, f, a.iter, T):
-                    why = (f"the entry is written once per element of `{a.iter.id}` but always indexes element {nh.slice.value}: every "
-                           f"node's column carries the first node's trajectory")
+            why = always_same_element([T], nh.slice.value)
         if T is None:
             why = why or f"the node part `{norm(nh)}` of the path is not an element of the node list returned by get_nodes"
         gn = None
@@ -1123,14 +1248,14 @@ def r3_same_path(ctx, rid):
                 if why is None and not (op_is(oh) and var_is(vh)):
                     why = f"the path uses operator/variable `{norm(oh)}/{norm(vh)}` but the nodes were resolved for `{asked}`"
         if why is None:
-            ctx.ok(rid, f, st, "the path is <node>/<op>/<var> with <node> from the resolved node list and <op>/<var> the pair get_nodes resolved",
+            ctx.ok(rid, f0, st, "the path is <node>/<op>/<var> with <node> from the resolved node list and <op>/<var> the pair get_nodes resolved",
                    {"template": tpl, "resolved_by": norm(gn)}, label=f"entry {tag}: path of the resolved node")
         else:
-            ctx.violation(rid, f, st, f"the index is not computed for the node this entry is written for: {why}", {"template": tpl},
+            ctx.violation(rid, f0, st, f"the index is not computed for the node this entry is written for: {why}", {"template": tpl},
                           label=f"entry {tag}: path of the resolved node")
     for vs, vk in var_stores:
         if id(vs) not in used:
-            ctx.violation(rid, f, vs, f"a backend variable is stored in `{var_map}` without an index in `{idx_map}` in the same branch",
+            ctx.violation(rid, f0, vs, f"a backend variable is stored in `{var_map}` without an index in `{idx_map}` in the same branch",
                           label=f"orphan {norm(vs)}")
 
 
@@ -1204,7 +1329,7 @@ def r5_index_lists_applied(ctx, rid):
 RULES = [
     ("C06-R1", r1_namespaces, 11),     # 22 on the pinned tree; merging duplicated look-ups into helpers lowers the count
     ("C06-R2", r2_label_data_lockstep, 4),
-    ("C06-R3", r3_same_path, 9),
+    ("C06-R3", r3_same_path, 3),       # three per entry of the index map (3 entries today; merged branches have fewer)
     ("C06-R4", r4_positions_inside_backend_variable, 2),      # one per get_variable_positions call in run() (2 today) + 1
     ("C06-R5", r5_index_lists_applied, 2),
 ]
